@@ -432,11 +432,17 @@ def Engine.handleUser (e : Engine) (ev : UserEvent) : Engine × Res :=
 /-! ### connection opened / closed / write completion -/
 
 /-- `create_connect` -/
-def Engine.createConnect (e : Engine) : Packet :=
+def Engine.createConnectBase (e : Engine) : Connect :=
   let c := e.cfg.connect.toPacket e.hasConnected
   match c.clientId, e.settings with
-  | none, some s => .connect { c with clientId := some s.clientId }
-  | _, _ => .connect c
+  | none, some s => { c with clientId := some s.clientId }
+  | _, _ => c
+
+/-- `create_connect`; 3.1.1 [MQTT-3.1.3-7]: a zero-byte client identifier forces CleanSession = 1 -/
+def Engine.createConnect (e : Engine) : Packet :=
+  let c := e.createConnectBase
+  if e.cfg.version == .v311 && (c.clientId.getD []).isEmpty then .connect { c with cleanStart := true }
+  else .connect c
 
 /-- `handle_network_event_connection_opened` -/
 def Engine.handleOpened (e : Engine) (deadline : Nat) : Engine × Res :=
